@@ -611,6 +611,86 @@ def oracle_c02(x):
     return None
 
 
+def make_oracle_c04(listed):
+    import grammar
+    g = grammar.grammar_with_known(listed)
+
+    def oracle(x):
+        if x.get("hang") or x.get("panicked") or x.get("crashed") or "tokens" not in x:
+            return None
+        ks = grammar.kinds_from_tree_tokens(x["tokens"])
+        if ks is None:
+            return None
+        ks = [k for k in ks if k != "Eof"]
+        der = grammar.recognise(ks, g=g)
+        clean = x["n_errors"] == 0
+        if der and not clean:
+            return "derivable from the documented grammar but syntax errors are reported: " + \
+                "; ".join(str(e[2]) for e in x["errors"][:2])
+        if clean and not der:
+            return "not derivable from the documented grammar but parses with zero syntax errors"
+        return None
+    return oracle
+
+
+def replay_l2(ws, root, h, r, fails, crate, fq, prop="C04"):
+    """native confirmation of an L2 unit counterexample: concrete texts around the solver's
+    token kinds, run through the real parser and judged by the property-level oracle"""
+    import realise, gen_rules
+    pbs, lp = get_playback_vals(ws, root, crate, fq, h["name"])
+    names = realise.kind_names(ws)
+    unit = h.get("unit")
+    units = {u[0]: u for u in gen_rules.UNITS}
+    gen = h["name"].startswith("c04_gen_")
+    texts = []
+    cexs = []
+    for pb in pbs:
+        v = pb["vals"]
+        try:
+            off = 0
+            if gen:
+                n = int.from_bytes(bytes(v[0]), "little")
+                off = 1
+            else:
+                n = units[unit][4]
+            kinds = [names[v[off + 3 * i][0]] for i in range(n)]
+        except Exception:
+            continue
+        first = units[unit][5]
+        if first and kinds:
+            kinds[0] = first
+        if kinds not in cexs:
+            cexs.append(kinds)
+            texts += realise.candidates(kinds, unit)
+    # ... and the small sentence space of the unit itself: every sequence of <= 6 symbols over
+    # the terminals of the rule and a minimal sentence per callee, in the unit's context
+    u = units[unit]
+    boundary = set()
+    for c in u[3]:
+        if gen_rules.CALLEES[c][1] == "stmtlist":
+            boundary |= set(gen_rules.STMTLIST_NTS)
+        else:
+            boundary.add(gen_rules.callee_nt(c))
+    _s, _e, _t, classes, _n = gen_rules.compile_unit(u[2], boundary)
+    texts += realise.enumerate_unit(unit, classes, maxlen=min(6, u[4] + 1))
+    texts = list(dict.fromkeys(texts))
+    binp = build_native(ws)
+    listed = {f["id"] for f in load_known_findings().get("findings", [])}
+    oracle = make_oracle_c04(listed) if prop == "C04" else oracle_c02
+    bad = []
+    B = 4000
+    for j in range(0, len(texts), B):
+        res = native_parse_props(binp, texts[j:j + B])
+        for x in res:
+            why = oracle(x)
+            if why:
+                bad.append({"text": x.get("text"), "why": why})
+        if bad:
+            break
+    return (len(bad) > 0), {"counterexample_kinds": cexs[:5], "texts_tried": len(texts),
+                            "native_failures": bad[:10], "log": lp}
+
+
 def oracle_c01c02(x):
     return oracle_c01(x) or oracle_c02(x)
 
@@ -679,7 +759,7 @@ def functions_in_log(path):
 REPLAYS = {
     "l1": replay_parse(oracle_c01c02, decode_l1),
     "pp_hang": replay_search(oracle_c02, PP_ALPHABET, 6),
-    "l2": lambda *a: (None, {"reason": "L2 replay not implemented yet"}),
+    "l2": replay_l2,
 }
 
 
@@ -778,7 +858,10 @@ def check(prop, tier, only=None, seed=0):
             if all("unwinding assertion" in f["desc"] for f in fails) and h.get("unwind_replay"):
                 custom = h["unwind_replay"]
             if custom:
-                rep, det = REPLAYS[custom](ws, root, h, r, fails, crate, fq)
+                if custom == "l2":
+                    rep, det = replay_l2(ws, root, h, r, fails, crate, fq, prop=prop if prop in ("C04", "C02") else "C04")
+                else:
+                    rep, det = REPLAYS[custom](ws, root, h, r, fails, crate, fq)
             else:
                 rep, det = native_replay(ws, root, crate, fq, h["name"], hfile,
                                          hang_is_repro=bool(h.get("unwind_is_violation")) and prop == "C02")
